@@ -134,7 +134,8 @@ S17b == <<[S17[1] EXCEPT !.objects = Append(@, Obj("p", "Marker", TStruct(<<Fiel
 S17c == <<[S17[1] EXCEPT !.objects = [@ EXCEPT ![1] = Obj("p", "Root", [RootT EXCEPT !.fields = Append(@, Field("deep", TRef("p", "L1"), TRUE))])]
                                      \o <<Obj("p", "L1", TStruct(<<Field("l2", TRef("p", "L2"), TRUE), Field("n", TString, FALSE)>>)),
                                           Obj("p", "L2", TStruct(<<Field("l3", TRef("p", "L3"), TRUE)>>)),
-                                          Obj("p", "L3", TStruct(<<Field("a", TString, TRUE), Field("b", TScalar("bool"), FALSE), Field("c", TArray(TString), FALSE)>>))>>],
+                                          Obj("p", "L3", TStruct(<<Field("a", TString, TRUE), Field("b", TScalar("bool"), FALSE), Field("c", TArray(TString), FALSE),
+                                                                  Field("id", TScalar("int64"), FALSE), Field("ID", TString, FALSE)>>))>>],
           S17[2]>>
 CONSTANTS Chains,            \* C17: the nested schema set and the alphabet of path-lengthening rules only
           WithMarker,        \* C17: add an object whose builder has no option
@@ -259,7 +260,16 @@ R2Full == <<
 ChainProd == ON("Root", <<"l2", "l3", "n", "a", "b", "c">>)
 Merge(src, under) == BR("merge_into", BN("Root")) @@ [source |-> src, under |-> under, exclude |-> <<>>, rename |-> <<>>]
 RChain == <<OSfo(R("deep"), <<>>), OSfo(ChainProd, <<>>), OSfa(ChainProd, <<>>), OSfo(ON("L1", <<"l2">>), <<>>),
-            Merge("L1", <<"deep">>), Merge("L2", <<"deep", "l2">>), Merge("L3", <<"deep", "l2", "l3">>)>>
+            Merge("L1", <<"deep">>), Merge("L2", <<"deep", "l2">>), Merge("L3", <<"deep", "l2", "l3">>),
+            \* property paths spelled in another letter case than the schema's fields, and case-twin fields (id / ID)
+            Merge("L3", <<"Deep", "L2", "l3">>),
+            BR("initialize", BO("p", "Root")) @@ [set |-> <<[path |-> <<"Name">>, value |-> VStr("init")]>>],
+            BR("initialize", BO("p", "Root")) @@ [set |-> <<[path |-> <<"deep", "l2", "l3", "ID">>, value |-> VStr("twin")]>>],
+            BR("add_option", BO("p", "Root")) @@ [option |-> [name |-> "cased", comments |-> <<>>, args |-> <<StrArg("v")>>,
+                 assigns |-> <<[path |-> <<"NAME">>, method |-> "direct", value |-> [k |-> "arg", arg |-> StrArg("v")]]>>]],
+            BR("add_option", BO("p", "L3")) @@ [option |-> [name |-> "twin", comments |-> <<>>, args |-> <<StrArg("v")>>,
+                 assigns |-> <<[path |-> <<"ID">>, method |-> "direct", value |-> [k |-> "arg", arg |-> StrArg("v")]]>>]],
+            OAdd(R("deep"), [path |-> <<"Name">>, method |-> "direct", value |-> [k |-> "const", val |-> VStr("forced")]])>>
 \* thorough tier: selectors spelled in another letter case, by_builder / by_name(builder) / by_variant / from_disjunction
 \* combinations, rules on copies; used for simulated histories of four rules
 R2Extra == <<
@@ -275,7 +285,9 @@ CONSTANT Ext
 ORenAs(s, as) == OR("rename_arguments", s) @@ [as |-> as]
 RWiring == <<OM2I(R("labels")), OSfa(R("inner"), <<>>), OA2A(R("tags")),
              ORenAs(R("labels"), <<"label", "key">>), ORenAs(R("labels"), <<"label", "value">>), ORenAs(R("labels"), <<"k", "key">>),
-             ORenAs(R("inner"), <<"y", "x">>), ORenAs(R("inner"), <<"y", "z">>), ORenAs(R("tags"), <<"tags">>)>>
+             ORenAs(R("inner"), <<"y", "x">>), ORenAs(R("inner"), <<"y", "z">>), ORenAs(R("tags"), <<"tags">>),
+             \* an option rule in the common set, then the language's promote_options_to_constructor on what it produced
+             BR("promote", BO("p", "Root")) @@ [options |-> <<"tags", "labels", "inner", "name">>]>>
 CONSTANT Wiring
 R2 == IF Chains THEN RChain ELSE IF Wiring THEN RWiring ELSE IF Ext THEN R2Full \o R2Extra ELSE R2Full
 R2All == {R2[i] @@ [lang |-> "all"] : i \in DOMAIN R2}
